@@ -109,7 +109,17 @@ pub fn c07(tier: &str) -> i32 {
             let opts = Opts { max_depth: if has_m { 1 } else { 2 }, max_memo: 2, dev_budget: 1, ref_in_key: false, frame: FrameSel::Both, collect_runs: true, ..Opts::default() };
             let ex = Explorer { base_cfg: cfg.clone(), opts, monitor: &noop, xval_full: Default::default(), choice_discovery: Default::default() };
             let out = ex.explore(None);
-            rep.add_stats(&format!("P{p}/{label}/replay-box"), &out.stats);
+            // for this property a script that does not replay identically IS the finding (something besides the
+            // configuration and the entropy input influenced the generator), not a machinery problem
+            let mut st = out.stats.clone();
+            for e in st.machinery_errors.drain(..) {
+                if e.contains("divergence") {
+                    rep.finding_raw("explorer-replay-divergence", &format!("P{p}/{label}: {e}"), json!({"kind":"digest","what":e}));
+                } else {
+                    rep.machinery.push(e);
+                }
+            }
+            rep.add_stats(&format!("P{p}/{label}/replay-box"), &st);
             // second and third generation of every run: in a rayon pool (reversed order) and on a fresh OS thread
             let runs = out.runs;
             let again: Vec<Option<Vec<u8>>> = runs
@@ -194,7 +204,10 @@ pub fn c07(tier: &str) -> i32 {
                         verif::set_memo_hash_seed(0);
                         let Ok(base) = scenario(&ex, false, &plan) else { continue };
                         // the GET index draw is the last value draw: enumerate its answers by patching the tail
-                        for idx in 0..k as u64 {
+                        for idx_t in 0..(k as u64) * if muts.is_empty() { 1 } else { 3 } {
+                            // with a memo-index mutator at rate 1.0 the draws after the index are: gate (8 bytes, ignored
+                            // at rate 1.0) and one direction draw (gen_bool / gen_range(0,3)): enumerate it as well
+                            let (idx, tail) = if muts.is_empty() { (idx_t, None) } else { (idx_t / 3, Some((idx_t % 3) as u8)) };
                             let mut script = base.script.clone();
                             // find the draws of the last step to patch the gen_range answer
                             let (_c, _r, tr) = ex.run(&script, plan.len());
@@ -203,6 +216,10 @@ pub fn c07(tier: &str) -> i32 {
                             let enc = crate::script::enc_index(idx, k as u64);
                             script.truncate(d.off);
                             script.extend_from_slice(&enc);
+                            if let Some(t) = tail {
+                                script.extend_from_slice(&[0u8; 8]);
+                                script.push(t);
+                            }
                             let mut c = cfg.clone();
                             c.min = plan.len();
                             c.max = plan.len();
@@ -307,8 +324,14 @@ pub fn c07(tier: &str) -> i32 {
             let cfg = Cfg::new(p).flags(true, true);
             let ex = Explorer { base_cfg: cfg.clone(), opts: Opts::default(), monitor: &noop, xval_full: Default::default(), choice_discovery: Default::default() };
             let mk = |plan: &[u8]| -> Option<Work> {
-                let planv: Vec<Vec<u8>> = plan.iter().map(|c| vec![*c]).collect();
-                let r = scenario(&ex, false, &planv).ok()?;
+                // string-carrying opcodes get a non-empty payload (length byte + character indices), so that the
+                // threads draw inside loops and interleave there
+                let planv: Vec<(Vec<u8>, Vec<u8>)> = plan
+                    .iter()
+                    .enumerate()
+                    .map(|(i, c)| (vec![*c], if matches!(*c, b'V' | b'S' | b'X' | 0x8c | b'U' | b'T') { vec![3, 1 + i as u8, 2 + i as u8, 40] } else { vec![] }))
+                    .collect();
+                let r = crate::explore::scenario_vals(&ex, false, &planv).ok()?;
                 let mut c = cfg.clone();
                 c.min = plan.len();
                 c.max = plan.len();
